@@ -1,10 +1,19 @@
 package main
 
 import (
+	"bytes"
 	"fmt"
 	"go/ast"
+	"go/printer"
+	"go/token"
 	"sort"
 )
+
+func exprText(e ast.Expr) string {
+	var b bytes.Buffer
+	printer.Fprint(&b, token.NewFileSet(), e)
+	return b.String()
+}
 
 // extra emits the facts beyond the C08 tables; extended property by property.
 func extra() {
@@ -68,6 +77,91 @@ func extra() {
 		return true
 	})
 	fmt.Fprintf(&out, "def dnsStubbedUnlessEnabled : Bool := %v\n", guarded)
+	// engine.go render: what the parse loop and the execute loop range over, and where that comes from
+	rf := funcDecl(eng, "Engine", "render")
+	var loops []string
+	keysFrom := ""
+	if rf != nil && rf.Body != nil {
+		ast.Inspect(rf.Body, func(n ast.Node) bool {
+			switch x := n.(type) {
+			case *ast.RangeStmt:
+				does := ""
+				ast.Inspect(x.Body, func(m ast.Node) bool {
+					if c, ok := m.(*ast.CallExpr); ok {
+						if sel, ok := c.Fun.(*ast.SelectorExpr); ok && (sel.Sel.Name == "Parse" || sel.Sel.Name == "ExecuteTemplate") {
+							does = sel.Sel.Name
+						}
+					}
+					return true
+				})
+				if does != "" {
+					name := "?"
+					if id, ok := x.X.(*ast.Ident); ok {
+						name = id.Name
+					}
+					loops = append(loops, does+":"+name)
+				}
+			case *ast.AssignStmt:
+				if len(x.Lhs) == 1 && len(x.Rhs) == 1 {
+					if id, ok := x.Lhs[0].(*ast.Ident); ok && id.Name == "keys" {
+						if c, ok := x.Rhs[0].(*ast.CallExpr); ok {
+							if f, ok := c.Fun.(*ast.Ident); ok {
+								keysFrom = f.Name
+							}
+						}
+					}
+				}
+			}
+			return true
+		})
+	}
+	emitList("renderLoops", loops)
+	emitStr("renderKeysFrom", keysFrom)
+	// dry-run spellings accepted by Install.isDryRun / Upgrade.isDryRun, and the guard of the CRD block
+	spellings := func(file, recv string) []string {
+		var out []string
+		fd := funcDecl(parse(file), recv, "isDryRun")
+		if fd != nil && fd.Body != nil {
+			ast.Inspect(fd.Body, func(n ast.Node) bool {
+				if be, ok := n.(*ast.BinaryExpr); ok && be.Op.String() == "==" {
+					if sel, ok := be.X.(*ast.SelectorExpr); ok && sel.Sel.Name == "DryRunOption" {
+						if s, ok := litString(be.Y, nil); ok {
+							out = append(out, s)
+						}
+					}
+				}
+				return true
+			})
+		}
+		return out
+	}
+	emitList("installDryRunSpellings", spellings("pkg/action/install.go", "Install"))
+	emitList("upgradeDryRunSpellings", spellings("pkg/action/upgrade.go", "Upgrade"))
+	crdCond := ""
+	inst := funcDecl(parse("pkg/action/install.go"), "Install", "RunWithContext")
+	if inst != nil && inst.Body != nil {
+		ast.Inspect(inst.Body, func(n ast.Node) bool {
+			is, ok := n.(*ast.IfStmt)
+			if !ok || is.Init == nil {
+				return true
+			}
+			as, ok := is.Init.(*ast.AssignStmt)
+			if !ok || len(as.Lhs) != 1 {
+				return true
+			}
+			if id, ok := as.Lhs[0].(*ast.Ident); !ok || id.Name != "crds" {
+				return true
+			}
+			for _, st := range is.Body.List {
+				if inner, ok := st.(*ast.IfStmt); ok {
+					crdCond = exprText(inner.Cond)
+					break
+				}
+			}
+			return false
+		})
+	}
+	emitStr("crdBailCondition", crdCond)
 	// order in which Options.MergeValues applies the value-flag families
 	emitList("valueFlagOrder", rangeOrder(funcDecl(parse("pkg/cli/values/options.go"), "Options", "MergeValues")))
 }
